@@ -59,10 +59,15 @@ class SeqWorld(World):
             args = call.get("a", [])
             if len(args) == 2:
                 self.impl_single_flow = it.rv(it.eval(args[1], frame))
+                # the implementation object, reduced to what the facade asks of it
+                return Obj(model.GRAPH_IMPL, {"m_single_flow": self.impl_single_flow})
             return Sym("impl", "impl")
         if bn in ("std::shared_ptr::operator=", "std::__shared_ptr::operator="):
-            for a in call.get("a", []):
-                it.eval(a, frame)
+            vals = [it.rv(it.eval(a, frame)) for a in call.get("a", [])]
+            if call.get("obj") is not None and vals:
+                ref = it.eval(call["obj"], frame)
+                if hasattr(ref, "set"):
+                    ref.set(vals[0])
             return None
         return NOT_HANDLED
 
